@@ -23,6 +23,27 @@ type propDef struct {
 
 var props = map[string]*propDef{}
 
+// extraRule: a rule that is added to a property from another file than the property's own (rules shared by several
+// properties, rules added in later rounds). Its description is appended to the property's explanation.
+type extraRule struct {
+	explain string
+	run     func(c *Ctx)
+}
+
+var extraRules = map[string][]extraRule{}
+
+func addRule(prop, explain string, run func(c *Ctx)) {
+	extraRules[prop] = append(extraRules[prop], extraRule{explain, run})
+}
+
+func extraExplanation(prop string) string {
+	out := ""
+	for _, e := range extraRules[prop] {
+		out += " ALSO decided: " + e.explain
+	}
+	return out
+}
+
 func register(p *propDef) { props[p.id] = p }
 
 // Ctx is what a property's rules get: the loaded world, shared analyses, and the report.
@@ -103,6 +124,9 @@ func runProp(p *propDef, repo, verif, tier string, noev, verbose bool) (code int
 			c := &Ctx{w: w, fc: newFlowCtx(w), r: r}
 			c.a = resolveAnchors(c)
 			p.run(c)
+			for _, extra := range extraRules[p.id] {
+				extra.run(c)
+			}
 		}
 		r.finish()
 	}()
@@ -181,7 +205,7 @@ func runProp(p *propDef, repo, verif, tier string, noev, verbose bool) (code int
 		}
 	}
 	cov := map[string]interface{}{
-		"explanation":         p.explanation,
+		"explanation":         p.explanation + extraExplanation(p.id),
 		"obligations":         len(r.Obs),
 		"discharged":          nOK,
 		"known_findings":      nKnown,
